@@ -1,8 +1,8 @@
 CONSTANTS
-  Alphabet <- LineAlphabet
-  MaxLen = 4
+  AlphaOf <- FullAlpha
+  MaxLenOf <- Len2
   DelimSet <- AllDelims
 INIT Init
 NEXT Next
-INVARIANTS EmitMenu EmitLine
+INVARIANTS ExportFaithful
 CHECK_DEADLOCK FALSE
